@@ -11,6 +11,7 @@ import (
 	"testing"
 
 	bexpr "github.com/hashicorp/go-bexpr"
+	"github.com/hashicorp/go-bexpr/grammar"
 	"pgregory.net/rapid"
 
 	"verif/harness/bx"
@@ -303,5 +304,194 @@ func TestC12_Shared(t *testing.T) {
 		r.Case(text+"\x00"+pool[0].String()+strconv.Itoa(c.K)+"/"+strconv.Itoa(c.Calls), hasMatches || hasQuant,
 			map[string]string{"expr": strconv.QuoteToASCII(text), "pool[0]": pool[0].String(), "goroutines": strconv.Itoa(c.K), "calls": strconv.Itoa(c.Calls)},
 			fmt.Sprintf("matches:%v", hasMatches), fmt.Sprintf("quantifier:%v", hasQuant), fmt.Sprintf("k:%d", c.K))
+	})
+}
+
+// --- concurrent creation -------------------------------------------------------------------
+//
+// "…and may create evaluators concurrently": k goroutines create evaluators and filters at the
+// same time from a set of texts - the same text in several goroutines, texts NEVER used before
+// in this process (a counter is spliced into a literal, a JSON-Pointer selector and the regular
+// expression, so that any process-wide cache is cold), valid and invalid ones, with and without
+// a step budget (sufficient, exact, exhausted) - and evaluate what they created. The sequential
+// reference is taken AFTER the concurrent phase, on the same texts and on cold twins of them.
+
+type c12Text struct {
+	Tmpl   string `json:"tmpl"`   // %ID% is replaced by a fresh 7-digit number per run
+	Budget int    `json:"budget"` // 0 none, 1 N+5, 2 N, 3 N-1 (exhausted), 4 N/2
+	Filter bool   `json:"filter"`
+}
+
+type c12CreateCase struct {
+	Texts []c12Text `json:"texts"`
+	K     int       `json:"k"`
+}
+
+var c12Counter struct {
+	sync.Mutex
+	n int
+}
+
+func c12Fresh() string {
+	c12Counter.Lock()
+	defer c12Counter.Unlock()
+	c12Counter.n++
+	return fmt.Sprintf("%07d", c12Counter.n)
+}
+
+func c12CreateOne(text string, budget uint64, filter bool, d interface{}) string {
+	defer func() { recover() }()
+	if filter {
+		f, err := bexpr.CreateFilter(text)
+		if err != nil || f == nil {
+			return fmt.Sprintf("error(%v) nil=%v", err, f == nil)
+		}
+		out, eerr := f.Execute([]interface{}{d, map[string]interface{}{}})
+		return fmt.Sprintf("execute=(%v, %v)", out, eerr)
+	}
+	var opts []bexpr.Option
+	if budget != 0 {
+		opts = append(opts, bexpr.WithMaxExpressions(budget))
+	}
+	ev, err := bexpr.CreateEvaluator(text, opts...)
+	if err != nil || ev == nil {
+		return fmt.Sprintf("error(%v) nil=%v", err, ev == nil)
+	}
+	res, eerr := ev.Evaluate(d)
+	return fmt.Sprintf("tree:\n%sexpression-intact=%v evaluate=(%v, %v)", dumpAST(ev.VerifAST()), ev.Expression() == text, res, eerr)
+}
+
+func c12CreateRun(t failer, c *c12CreateCase) {
+	type job struct {
+		text   string
+		budget uint64
+		filter bool
+		id     string
+	}
+	mkJobs := func() []job {
+		var jobs []job
+		for _, tx := range c.Texts {
+			id := c12Fresh()
+			text := strings.ReplaceAll(tx.Tmpl, "%ID%", id)
+			// the step count does not depend on the digits: measure it on a twin
+			_, _, n := grammar.ParseWithStats("", []byte(strings.ReplaceAll(tx.Tmpl, "%ID%", "0000000")))
+			var b uint64
+			switch tx.Budget {
+			case 1:
+				b = n + 5
+			case 2:
+				b = n
+			case 3:
+				b = n - 1
+			case 4:
+				b = n/2 + 1
+			}
+			jobs = append(jobs, job{text, b, tx.Filter, id})
+		}
+		return jobs
+	}
+	datum := func(id string) interface{} {
+		return map[string]interface{}{"name": "svc-" + id, "n": 1, "meta": map[string]interface{}{"k" + id: "v" + id, "env": "prod"}, "tags": []interface{}{"a", "t" + id}}
+	}
+	jobs := mkJobs()
+	before := raceLogSize()
+	got := make([][]string, c.K)
+	var wg sync.WaitGroup
+	start := make(chan struct{})
+	for g := 0; g < c.K; g++ {
+		got[g] = make([]string, len(jobs))
+		wg.Add(1)
+		go func(g int) {
+			defer wg.Done()
+			<-start
+			for x := range jobs {
+				i := (x + g) % len(jobs)
+				got[g][i] = c12CreateOne(jobs[i].text, jobs[i].budget, jobs[i].filter, datum(jobs[i].id))
+			}
+		}(g)
+	}
+	close(start)
+	wg.Wait()
+	raced := raceLogSize() > before
+	// sequential reference: the same texts again, and cold twins (fresh counter values) with the digits mapped back
+	twins := mkJobs()
+	for i, j := range jobs {
+		want := c12CreateOne(j.text, j.budget, j.filter, datum(j.id))
+		twin := strings.ReplaceAll(c12CreateOne(twins[i].text, twins[i].budget, twins[i].filter, datum(twins[i].id)), twins[i].id, j.id)
+		for g := 0; g < c.K; g++ {
+			if got[g][i] != want || got[g][i] != twin {
+				violation(t, "C12", "TestC12_Create", c, "goroutine %d created %s (budget %d, filter %v) at the same time as %d others and got\n  %s\n created afterwards, alone:\n  %s\n a never-used twin text created alone:\n  %s",
+					g, strconv.QuoteToASCII(j.text), j.budget, j.filter, c.K-1, got[g][i], want, twin)
+			}
+		}
+	}
+	if raced {
+		violation(t, "C12", "TestC12_Create", c, "the race detector reported a data race while %d goroutines created evaluators/filters concurrently\n%s", c.K, raceLogTail())
+	}
+}
+
+func init() {
+	replayers["TestC12_Create"] = func(t *testing.T, raw json.RawMessage) {
+		var c c12CreateCase
+		if err := json.Unmarshal(raw, &c); err != nil {
+			t.Fatalf("bad case: %v", err)
+		}
+		for i := 0; i < 30; i++ {
+			c12CreateRun(t, &c)
+		}
+		t.Logf("replay ok")
+	}
+}
+
+func TestC12_Create(t *testing.T) {
+	r := rec(t, "C12", c12Rule+"; TestC12_Create: k goroutines create evaluators/filters at the same time from 2-6 texts never used before in the process (valid with matches / JSON-Pointer "+
+		"selectors / quantifiers, invalid ones, budgets N+5, N, N-1, N/2), compared with creation afterwards and with cold twin texts; non-trivial = a matches text and an invalid or budget-exhausted one in the same case")
+	valid := []string{
+		`name matches "^svc-%ID%$"`,
+		`name not matches "x%ID%" and n == 1`,
+		`"/meta/k%ID%" == "v%ID%"`,
+		`"/meta/env" == prod and "/name" != "%ID%"`,
+		`"t%ID%" in tags or name == "%ID%"`,
+		`any tags as tg { tg matches "^t%ID%" }`,
+		`all meta as k, v { k != "%ID%" and v is not empty }`,
+		`meta["k%ID%"] == "v%ID%" and not ("/meta/zz%ID%" is empty)`,
+		`( name contains "%ID%" ) or n == 2`,
+		`name matches "(%ID%"`,
+	}
+	invalid := []string{
+		`name matches "^svc-%ID%$" and`,
+		`"/meta/k%ID%" == `,
+		`name == "%ID%`,
+		`any tags as tg { tg == "%ID%"`,
+		`name === "%ID%"`,
+		`"meta/k%ID%" == 1`,
+	}
+	rapid.Check(t, func(t *rapid.T) {
+		c := &c12CreateCase{K: rapid.IntRange(2, 8).Draw(t, "k")}
+		n := rapid.IntRange(2, 6).Draw(t, "texts")
+		hasMatches, hasBad := false, false
+		for i := 0; i < n; i++ {
+			tx := c12Text{}
+			if rapid.IntRange(0, 3).Draw(t, "invalid") == 0 {
+				tx.Tmpl = invalid[rapid.IntRange(0, len(invalid)-1).Draw(t, "which")]
+				hasBad = true
+			} else {
+				tx.Tmpl = valid[rapid.IntRange(0, len(valid)-1).Draw(t, "which")]
+				hasMatches = hasMatches || strings.Contains(tx.Tmpl, "matches")
+			}
+			if rapid.Bool().Draw(t, "budgeted") {
+				tx.Budget = rapid.IntRange(1, 4).Draw(t, "budget")
+				hasBad = hasBad || tx.Budget >= 3
+			} else {
+				tx.Filter = rapid.IntRange(0, 3).Draw(t, "filter") == 0
+			}
+			c.Texts = append(c.Texts, tx)
+		}
+		c12CreateRun(t, c)
+		var key strings.Builder
+		for _, tx := range c.Texts {
+			fmt.Fprintf(&key, "%s\x00%d%v", tx.Tmpl, tx.Budget, tx.Filter)
+		}
+		r.Case(key.String()+strconv.Itoa(c.K), hasMatches && hasBad, map[string]interface{}{"texts": c.Texts, "goroutines": c.K}, fmt.Sprintf("k:%d", c.K), fmt.Sprintf("matches:%v", hasMatches), fmt.Sprintf("invalid-or-exhausted:%v", hasBad))
 	})
 }
